@@ -1007,8 +1007,9 @@ func migrateSetRun(cmd *cobra.Command, args []string, flags migrateSetFlags) (re
 			if err := rrw.DeleteRevision(ctx, r.Version); err != nil {
 				return err
 			}
-		// keep, but if with error mark "fixed"
-		case r.Version == version && (r.Error != "" || r.Total != r.Applied):
+		// keep, but if with error mark "fixed". All versions up to
+		// and including the given one are considered applied.
+		case r.Error != "" || r.Total != r.Applied:
 			log.Set(r)
 			r.Type = migrate.RevisionTypeExecute | migrate.RevisionTypeResolved
 			if err := rrw.WriteRevision(ctx, r); err != nil {
